@@ -110,6 +110,9 @@ func Pipe(a, b net.Addr, ab, ba LinkCfg) (*Conn, *Conn) {
 func (c *Conn) LocalAddr() net.Addr  { return c.local }
 func (c *Conn) RemoteAddr() net.Addr { return c.remote }
 
+// PeerPending reports bytes this end wrote that the other end has not read yet.
+func (c *Conn) PeerPending() int { return len(c.out.buf) + c.out.inflight }
+
 // SetOutLink changes the configuration of the direction this end writes.
 func (c *Conn) SetOutLink(cfg LinkCfg) { c.out.cfg = cfg }
 
